@@ -39,6 +39,12 @@ PROGRAMS.update({
     "trig": {"goals": ["y", "z"],
              "text": "x = 0\ny = 0\nz = 2\nwhile true:\n    x = DiscreteUniform(1, 2)\n    z = z + y\n    y = Cos(x)\nend\n"},
 })
+PROGRAMS.update({
+    # user identifiers that look like generated ones with MULTI-digit numbers (reserved up to 13 and 11), and a draw
+    # with a non-constant mean that makes the normalization ask for a fresh "_u" name
+    "usernames3": {"goals": ["x", "_t10"],
+                   "text": "x = 0\n_t10 = 1\nwhile true:\n    _t10, x = x, Normal(x + _u12, 1)\nend\n"},
+})
 OPTIONS = ["tc", "c2a", "exact"]
 OPTMAP = {"tc": "transform_categoricals", "c2a": "cond2arithm", "exact": "exact_func_moments"}
 
